@@ -311,11 +311,11 @@ class Lineariser:
     """abstraction for obligations that are linear in the atoms: every application of an uninterpreted function (sqrt, inv, acos2,
     sin, ...) and every genuinely non-linear product / power / division is replaced by a fresh real constant (the same term always
     by the same constant).  Proving the abstracted obligation proves the original (the abstraction only forgets facts)."""
-    def __init__(s): s.cache = {}; s.n = 0
+    def __init__(s, som=False): s.cache = {}; s.n = 0; s.som = som
     def fresh(s, t):
         s.n += 1; return z3.Real('lin!%d' % s.n)
     def __call__(s, t):
-        t = z3.simplify(t) if z3.is_expr(t) else t
+        t = (z3.simplify(t, som=True) if s.som else z3.simplify(t)) if z3.is_expr(t) else t
         return s.go(t)
     def go(s, t):
         k = t.get_id()
